@@ -15,7 +15,7 @@ package main
 //                       counter comes round to the target's id again).  The client table is wrapped by a recorder
 //                       so that the firing of the timer is an event, not a guess.  Judged directly: no protected
 //                       user is removed from the table, closed, or announced as having left; it keeps being served.
-//                       And the final table is compared with the Lean model (KickTimer.run).
+//                       And the final table is compared with the Lean model (KickGrace.run).
 //   * kick-unheld-id  — disconnect requests naming an id nobody holds (never issued / just left / 0 / short field)
 //                       with and without ban option, in a CHILD PROCESS running the real server (a panic in the
 //                       bare delayed goroutine kills the process, i.e. disconnects every user): the process must
@@ -535,7 +535,7 @@ func runUnheld(c *Case, u unheldCase) {
 // ---------------------------------------------------------------- registration
 
 func c06WaveD(x *Ctx) {
-	x.rule += " wave d: kick-grace = schedules inside the grace second of an accepted disconnect (real timer, recorded client table): allocator position {fresh, after 1..300 logins+logouts, 0..2 ids before the 16-bit counter comes round to the target's id} × who acts first {target hangs up then newcomers log in, newcomers first, target stays} × 1..3 newcomers (protected / plain) × ban option; judged: no protected user removed / closed / announced as left / unserved / banned; final table compared with the Lean model KickTimer.run. kick-unheld-id = disconnect requests naming an id nobody holds (never issued, just left, left long ago, zero) × option {absent, temporary, permanent, other} × 1..3 protected users, the real server in a child process: it must survive the grace period with the protected users listed; distinct = distinct schedule / request"
+	x.rule += " wave d: kick-grace = schedules inside the grace second of an accepted disconnect (real timer, recorded client table): allocator position {fresh, after 1..300 logins+logouts, 0..2 ids before the 16-bit counter comes round to the target's id} × who acts first {target hangs up then newcomers log in, newcomers first, target stays} × 1..3 newcomers (protected / plain) × ban option; judged: no protected user removed / closed / announced as left / unserved / banned; final table compared with the Lean model KickGrace.run. kick-unheld-id = disconnect requests naming an id nobody holds (never issued, just left, left long ago, zero) × option {absent, temporary, permanent, other} × 1..3 protected users, the real server in a child process: it must survive the grace period with the protected users listed; distinct = distinct schedule / request"
 	const per = 24
 	x.Add(&Family{Name: "kick-grace", Quick: 3, Thor: 12, Run: func(c *Case) {
 		base := tableIndex(c, 12) * per
